@@ -46,15 +46,22 @@ def run(r):
         "ecow::EcoVec (unsafe code) behaves as summarised at the top of coq/Model/Cow.v: clone/drop count references, a unique vector is mutated in place, "
         "an unallocated vector is always unique; checked by the tie (contents, is_unique and is_copy_of of all live handles after every step)",
         "the hook `uiua::verif::Cow` forwards to CowSlice<f64> without extra clones",
+        "Model/ReduceMarks.v transcribes only the byte arm of /min and /max at depth 0, rank 1, without fill (tied on every run against `/↧` `/↥` of byte lists under truthful marks)",
+        "the storage-variant builders of the harness (to_num_storage / to_byte_storage / set_sorted / clear_flags / num_slice_of_larger / byte_slice_of_larger hooks, "
+        "arguments MOVED onto the stack so that unique buffers stay unique); every constructed variant is validated with uiua::verif::check_value before use",
+        "all primitives and modifiers other than the buffer operations and the byte min/max shortcut are covered by the implementation-level differential only (no model, no proof)",
     ]
     r.assumptions += [
         "operations are called within their preconditions (no panic): slice/remove/split_off ranges inside the window, into_slices size divides the length, write index in range",
+        "buffer theorems are about element type-independent behaviour; the tie drives CowSlice<f64> only (element values are small integers)",
+        "C06_reduce_*_marks_invisible: the sortedness marks handed to the shortcut are truthful (premises sorted_up / sorted_down); truthfulness of marks produced by uiua is C05's property",
+        "search: numeric (byte/float) arguments only, no NaN in marked arrays; results compared with uiua's own == plus shape and type name; error outcomes compared by message",
     ]
     if not r.harness(["c06"]):
         return
     r.proofs()
 
-    # ---- regression corpus first: the complete programs that exposed the four repaired defects
+    # ---- regression corpus first: the complete programs that exposed the six repaired defects (keys = their class), plus controls
     rc, out, err = run_bin("c06", ["programs"], seed=r.seed, timeout=300)
     lf = json_lines(out)
     if rc != 0 or len(lf) < 20:
@@ -177,7 +184,10 @@ def run(r):
         r.sample({"regression_program": lf[0]})
     r.coverage["evaluations"] = nsteps + evals + len(rcs)
     r.coverage["distinct_nontrivial"] = len(set(tuple(s["op"] for s in h["steps"]) for h in hists if any(not b for s in h["steps"] for b in s["u"])))
-    r.coverage["rule"] = ("tie: histories of 12-40 operations over up to 7 live handles (windows up to 14 elements, all 18 operation kinds, fresh element values so that "
+    r.coverage["rule"] = ("regression programs: 32 complete programs (6 repaired defects: cow-left-fill-hidden-prefix, reduce-minmax-sorted-depth, reduce-min-sorted-empty, "
+                          "reduce-minmax-byte-empty-rows, pow-byte-exponent-powi, exp10-byte-powi; plus controls) compared with programs computing the expected value. "
+                          "reduce tie: /↧ and /↥ of random byte lists (sorted up / down / unsorted, lengths 0-6) under truthful subsets of marks vs Model/ReduceMarks.v. "
+                          "tie: histories of 12-40 operations over up to 7 live handles (windows up to 14 elements, all 18 operation kinds, fresh element values so that "
                           "stale data is recognisable) plus 12 directed histories; non-trivial = a history in which at some step a buffer is shared (is_unique false). "
-                          "search: every catalogue entry (monadic and dyadic primitives and modifier applications, incl. the pervasive maths forms whose byte and float kernels differ) on fixed and random numeric arguments and on boundary values of both storage types (bytes 0 1 127 128 254 255 with repeats; floats also +-0, huge, subnormal, just outside the byte range; lists, matrices and a rank-3 array), each in all "
+                          "search: every catalogue entry (monadic and dyadic primitives and modifier applications, incl. the pervasive maths forms whose byte and float kernels differ) on fixed and random numeric arguments, on arrays with ascending / descending rows of rank 1-3 for the mark-sensitive family, and on boundary values of both storage types (bytes 0 1 127 128 254 255 with repeats; floats also +-0, huge, subnormal, just outside the byte range; lists, matrices and a rank-3 array), each in all "
                           "{byte,float} x {marks kept, cleared, recomputed} x {fresh, shared clone, slice of a shared larger buffer, slice of a larger buffer that is otherwise dead} variants")
